@@ -72,22 +72,72 @@ Proof. reflexivity. Qed.
    progress ++ unwritten data = the data it was given; a writer not holding the lock has written nothing of its
    record in progress *)
 Theorem C10_writers_exclusive :
-  writers_exclusive_stmt.
+  forall (maxc : N) (fuel : nat) (order : list N) (rr idle : N) (s0 : wsys) (errd : bool)
+    (acc : list (list N)),
+  fresh s0 ->
+  RI (rsp (ws_req s0)) ->
+  let id := ReqModel.r_id (sreq (rsp (ws_req s0))) in
+  let ws0 := ws_writers s0 in
+  let s := fst (fst (wsteps maxc fuel order rr idle s0 errd acc)) in
+  exists (ts : list tenure) (part : bytes) (cur : N -> bytes) (written : N -> N),
+    wlog (ws_world s) = wlog (ws_world s0) ++ concat (map (tenure_bytes ws0 id) ts) ++ part /\
+    Forall (tenure_ok (len ws0)) ts /\
+    length (ws_writers s) = length ws0 /\
+    ReqModel.r_id (sreq (rsp (ws_req s))) = id /\
+    (forall (i : N) (w0 w : wr),
+     nth_error ws0 (N.to_nat i) = Some w0 ->
+     nth_error (ws_writers s) (N.to_nat i) = Some w ->
+     wr_type w = wr_type w0 /\
+     wr_data w0 = concat (chunks_of i ts) ++ cur i ++ wr_data w /\
+     (wr_started w = false -> cur i = [] /\ wr_cur w = []) /\
+     (wr_started w = true ->
+      0 < len (cur i) <= 65535 /\
+      written i <= len (rec_of (wr_type w0) id (cur i)) /\
+      concat (wr_cur w) = drop (written i) (rec_of (wr_type w0) id (cur i)) /\
+      (~ holds (ws_holder s) i -> written i = 0)) /\
+     (wr_done w = true -> wr_started w = false -> wr_data w = [])) /\
+    match ws_holder s with
+    | HNone => part = []
+    | HWriter i =>
+        exists w : wr,
+          nth_error (ws_writers s) (N.to_nat i) = Some w /\
+          wr_started w = true /\ part = take (written i) (rec_of (wtype ws0 i) id (cur i))
+    | HRequest => rlock (ws_req s) = true
+    end.
 Proof. exact writers_exclusive. Qed.
 
 (* all writers done, none failed: the log is exactly a sequence of complete tenures carrying every writer's
    data *)
 Theorem C10_writers_complete :
-  writers_complete_stmt.
+  forall (maxc : N) (fuel : nat) (order : list N) (rr idle : N) (s0 : wsys) (errd : bool)
+    (acc : list (list N)),
+  fresh s0 ->
+  RI (rsp (ws_req s0)) ->
+  let id := ReqModel.r_id (sreq (rsp (ws_req s0))) in
+  let ws0 := ws_writers s0 in
+  let
+  '(s, errd', _) := wsteps maxc fuel order rr idle s0 errd acc in
+   forallb wr_done (ws_writers s) = true ->
+   errd' = false ->
+   ws_holder s <> HRequest ->
+   exists ts : list tenure,
+     wlog (ws_world s) = wlog (ws_world s0) ++ concat (map (tenure_bytes ws0 id) ts) /\
+     Forall (tenure_ok (len ws0)) ts /\
+     (forall (i : N) (w0 : wr),
+      nth_error ws0 (N.to_nat i) = Some w0 -> wr_data w0 = concat (chunks_of i ts)).
 Proof. exact writers_complete. Qed.
 
 (* a writer polled while someone else holds the lock changes nothing *)
 Theorem C10_writer_waits :
-  writer_waits_stmt.
+  forall (fuel : nat) (id i : N) (w : wr) (h : holder) (wd : world),
+  wr_started w = true ->
+  wr_done w = false -> h <> HNone -> h <> HWriter i -> poll_writer fuel id i w h wd = (0, w, h, wd).
 Proof. exact writer_waits. Qed.
 
 (* the request's flush polled while a writer holds the lock changes nothing *)
 Theorem C10_request_waits :
-  request_waits_partial_stmt.
+  forall (fuel : nat) (r : rstate) (i : N) (w : world),
+  (0 < fuel)%nat ->
+  output_buffer (rsp r) <> [] -> poll_output_l fuel r (HWriter i) w = (PWake, r, HWriter i, w).
 Proof. exact request_waits_partial. Qed.
 
